@@ -78,9 +78,10 @@ def make_bc(mesh, cls, setup, tag):
     elif setup == "periodic":
         pax = next((ax for ax in range(d) if U.periodic_ok(kinds[ax])), None)
         for ax in range(d):
-            for side in U.SIDES[ax]:
+            for hi_, side in enumerate(U.SIDES[ax]):
                 if ax == pax:
-                    getattr(bc, side).periodic = True
+                    if U.flag_mode(len(cls), tag) in ("both", ("lo", "hi")[hi_]):
+                        getattr(bc, side).periodic = True
                 else:
                     getattr(bc, side).fixedValue(1.25 + tag)
     return bc
@@ -321,6 +322,46 @@ def _ops_part(ctx, res):
     if snap(a) != snap(c) or c.BCs is a.BCs or np.shares_memory(np.asarray(a._value), np.asarray(c._value)):
         F.append({"key": "C14:copy_not_equal_or_shared", "msg": "copy() on %s is not an equal, separately stored variable" % ctx.gid, "detail": {}})
     probe_independence(ctx, F, seen, "copy|", c, [a])
+    # copy() of variables whose ghost layer is not (yet) the one their BCs give: built from an array that includes the
+    # ghost cells, returned by solveMatrixPDE, edited (BCs or values) and not refreshed.  "Equal" means equal as it is:
+    # interior, boundary values (ghost layer, plot profile), BCs and pending-change flags.
+    def dirty_variants():
+        full = U.generic_array(tuple(k + 2 for k in ctx.dims), tag=161, signed=True)
+        yield "ghost-including array", pf.CellVariable(ctx.mesh, full.copy(), make_bc(ctx.mesh, ctx.cls, ctx.setup, 1))
+        one = pf.CellVariable(ctx.mesh, 1.0)
+        Mbc, rbc = pf.boundaryConditionsTerm(make_bc(ctx.mesh, ctx.cls, "robin", 2))
+        yield "result of solveMatrixPDE", pf.solveMatrixPDE(ctx.mesh, Mbc + pf.linearSourceTerm(one), rbc + pf.constantSourceTerm(ctx.var(1)))
+        v = ctx.var(0)
+        v.apply_BCs()
+        getattr(v.BCs, U.SIDES[0][1]).fixedValue(7.5)
+        yield "BC edited, not refreshed", v
+        v = ctx.var(1)
+        v.apply_BCs()
+        v.value = np.asarray(v.value) * 2.0 + 1.0
+        yield "value assigned, not refreshed", v
+        v = ctx.var(2)
+        v.apply_BCs()
+        v.value[(0,) * ctx.d] = -3.0
+        yield "one value edited, not refreshed", v
+    for label, a in dirty_variants():
+        res["evals"] += 1
+        res["nontrivial"] += 1
+        try:
+            prof_a = [np.array(x) for x in a.plotprofile()]
+            c = a.copy()
+            # what a user can observe: interior and boundary values, boundary conditions (the cached boundary term and the
+            # pending-change flags are internal: a copy may be "cleaner" than its original)
+            same = (np.array_equal(np.asarray(a._value), np.asarray(c._value), equal_nan=True) and bc_bytes(a.BCs) == bc_bytes(c.BCs)
+                    and all(np.array_equal(x, y, equal_nan=True) for x, y in zip(prof_a, c.plotprofile())))
+        except Exception as e:  # noqa: BLE001
+            F.append({"key": "C14:copy_exception", "msg": "copy() of a variable (%s) on %s raises %s: %s" % (label, ctx.gid, type(e).__name__, str(e)[:100]), "detail": {}})
+            continue
+        if not same or c.BCs is a.BCs or np.shares_memory(np.asarray(a._value), np.asarray(c._value)):
+            k = "C14:copy_not_equal:%s" % label.split(",")[0].replace(" ", "_")
+            if k not in seen:
+                seen.add(k)
+                F.append({"key": k, "msg": "copy() of a variable (%s) on %s (%s BCs) is not equal to its original (interior, boundary values, BCs, flags) or shares storage with it"
+                                           % (label, ctx.gid, ctx.setup), "detail": {"grid": ctx.gid}})
 
 
 def _trees_part(ctx, res, first, depth):
